@@ -5,7 +5,7 @@ from lib import vlib
 RULE = ("limits: 6 resources (locals, parameters, call arguments, array / map literal elements, constants) x {capacity-1, capacity, "
         "capacity+1} (capacity derived in TLA+ from the real operand-width table) x declaring forms x nesting (main, function, source "
         "module, Eval fragment), optimizer on/off; soup: every token string up to 3 (thorough 4) tokens over a 40-token alphabet; "
-        "near: 12 valid skeleton programs covering every statement kind x every single token edit (insert / replace by any alphabet token, delete, repeat a two-token window, exchange neighbours; thorough: followed by every structural second edit), each compiled with the optimizer on / off / at budget 1, with tracing on, with a re-used symbol table, as a source module and as an Eval fragment; "
+        "bytesoup: every byte string up to 4 (thorough 5) bytes over 19 bytes that drive the scanner (comment / string delimiters, CR, LF, backslash, NUL, 0xff, ...); near: 12 valid skeleton programs covering every statement kind x every single token edit (insert / replace by any alphabet token, delete, repeat a two-token window, exchange neighbours; thorough: followed by every structural second edit), each compiled with the optimizer on / off / at budget 1, with tracing on, with a re-used symbol table, as a source module and as an Eval fragment; "
         "evalseq: every sequence of up to 3 (thorough 4) fragments of a 16-fragment catalogue in one Eval session, including fragments that fail after an import / declaration / constant; "
         "corpus: every UgoSem program x 5 option sets + a re-used symbol table; each compilation under recover, a 30 s watchdog and a "
         "memory ceiling in a restartable worker; on success the bytecode is scanned (jump / try targets, constant, local, builtin, "
@@ -24,7 +24,8 @@ def run(ctx):
     ok_cases = 0
     for label, cfg in (("limits", "UgoLimits_limits"), ("soup", "UgoLimits_soup" if ctx.quick else "UgoLimits_soup_t"),
                        ("near", "UgoLimits_near" if ctx.quick else "UgoLimits_near_t"),
-                       ("evalseq", "UgoLimits_evalseq" if ctx.quick else "UgoLimits_evalseq_t")):
+                       ("evalseq", "UgoLimits_evalseq" if ctx.quick else "UgoLimits_evalseq_t"),
+                       ("bytesoup", "UgoLimits_bytesoup" if ctx.quick else "UgoLimits_bytesoup_t")):
         out = ctx.path(label + ".ndjson")
         ctx.tlc("UgoLimits", cfg, env=dict(OUT=out, W2=w2), timeout=2400, name=label)
         # chunks, so that a worker killed by a runaway compilation is charged to a small set of inputs
